@@ -57,6 +57,9 @@ func ValidateMsgMoveAvailableVestingByDenom(fromAddress string, toAddress string
 		if len(denom) == 0 {
 			return nil, nil, errors.Wrapf(ErrParam, "move available vesting by denoms - empty denomination at position %d", i)
 		}
+		if err := sdk.ValidateDenom(denom); err != nil {
+			return nil, nil, errors.Wrapf(ErrParam, "move available vesting by denoms - denomination at position %d: %s", i, err)
+		}
 
 		if seenDenoms[denom] {
 			return nil, nil, errors.Wrapf(ErrParam, "move available vesting by denoms - duplicate denomination %s", denom)
